@@ -94,8 +94,7 @@ func (v *Vue) evalSlot(ctx VueContext, node *html.Node, slotScope *SlotScope) ([
 				// If there's a scoped variable name, use it; otherwise use the props directly
 				if scopedVarName != "" {
 					ctx.stack.Set(scopedVarName, slotProps)
-				} else {
-					// Set the slot props directly in the context
+				} else {					// Set the slot props directly in the context
 					for k, v := range slotProps {
 						ctx.stack.Set(k, v)
 					}
@@ -108,8 +107,16 @@ func (v *Vue) evalSlot(ctx VueContext, node *html.Node, slotScope *SlotScope) ([
 				}
 				result = append(result, children...)
 			} else {
-				// Use the provided content as-is
-				result = append(result, slotContent.Nodes...)
+				// Plain children are template code of the includer: evaluate them. Every use of
+				// the slot gets its own copy of the nodes, and the content does not see this
+				// component's slots (an include inside it extracts its own).
+				contentCtx := ctx
+				contentCtx.SlotScope = nil
+				children, err := v.evaluate(contentCtx, slotContent.Nodes, 0)
+				if err != nil {
+					return nil, err
+				}
+				result = append(result, children...)
 			}
 
 			return result, nil
